@@ -33,16 +33,14 @@ func (f *frame) run(entry *bstate, args []TV) {
 	}
 	if len(fn.FreeVars) > 0 {
 		for _, fv := range fn.FreeVars {
-			if b, ok := f.fvBind[fv]; ok {
-				f.setVal(fv, b)
-				f.params[fv.Name()] = b
-				continue
+			tv, bound := f.fvBind[fv]
+			if !bound {
+				// captured variables are pointers to cells owned by the enclosing function
+				tv = f.havocValue(entry, f.id+"fv."+fv.Name(), fv.Type())
 			}
-			// captured variables are pointers to cells owned by the enclosing function
-			tv := f.havocValue(entry, f.id+"fv."+fv.Name(), fv.Type())
 			f.setVal(fv, tv)
 			f.params[fv.Name()] = tv
-			if pt, ok := fv.Type().Underlying().(*types.Pointer); ok {
+			if pt, ok := fv.Type().Underlying().(*types.Pointer); ok && (!bound || f.top) {
 				// the contract name denotes the captured variable's value at entry
 				f.vc.assert("(> " + tv.T + " 0)")
 				lv := f.lvOfRef(tv.T, pt.Elem())
@@ -262,8 +260,28 @@ func (f *frame) loopContract(li *loopInfo) *LoopC {
 	if f.contract == nil {
 		return nil
 	}
-	return f.contract.Loops[li.ord]
+	lc := f.contract.Loops[li.ord]
+	if f.top && f.eng().noSwallowActive(f.contract) {
+		// implicit invariant of noswallow functions
+		if lc == nil {
+			lc = &LoopC{Ord: li.ord}
+			f.contract.Loops[li.ord] = lc
+		}
+		has := false
+		for _, inv := range lc.Invs {
+			if inv.Text == noSwallowInvText {
+				has = true
+			}
+		}
+		if !has {
+			e, _ := ParseCExpr("!" + noSwallowGhost)
+			lc.Invs = append(lc.Invs, &Clause{Kind: "invariant", Text: noSwallowInvText, Expr: e, Tags: f.contract.NoSwallowTags})
+		}
+	}
+	return lc
 }
+
+const noSwallowInvText = "noswallow: no iteration continues after a call returned an error"
 
 func (f *frame) loopModSet(li *loopInfo) *modSet {
 	mods := newModSet()
@@ -712,8 +730,22 @@ func (f *frame) monotonePhis(b *ssa.BasicBlock, li *loopInfo, st *bstate, ins []
 // called somewhere in the loop body (ordinals ignored: a superset).
 func (f *frame) loopGhostMods(li *loopInfo) map[string]bool {
 	out := map[string]bool{}
+	for b := range li.body {
+		for _, in := range b.Instrs {
+			if n, ok := in.(*ssa.Next); ok {
+				if r, ok := n.Iter.(*ssa.Range); ok {
+					if g, ok := f.visitedName[r]; ok {
+						out[g] = true
+					}
+				}
+			}
+		}
+	}
 	if f.contract == nil || !f.top {
 		return out
+	}
+	if f.eng().noSwallowActive(f.contract) {
+		out[noSwallowGhost] = true
 	}
 	for b := range li.body {
 		for _, in := range b.Instrs {
